@@ -65,6 +65,9 @@ pub struct Behavior {
     /// block until this file (relative to the case root) exists
     #[serde(default, skip_serializing_if = "Option::is_none")]
     pub gate: Option<String>,
+    /// instead of exiting, the helper sends itself this signal once its script is done
+    #[serde(default, skip_serializing_if = "Option::is_none")]
+    pub kill_self: Option<i32>,
 }
 
 pub fn hex(b: &[u8]) -> String {
@@ -315,6 +318,9 @@ impl Env {
             }
             if let Some(g) = &b.gate {
                 m.insert("gate".into(), json!(self.case_dir.join(g).display().to_string()));
+            }
+            if let Some(s) = b.kill_self {
+                m.insert("kill_self".into(), json!(s));
             }
             entries.insert(key, Value::Object(m));
         }
